@@ -295,7 +295,7 @@ def _check_complete_pruning(ctx, f):
 
 
 # ---------------------------------------------------------------------------
-@rule("SIB9", ["C02", "C03", "C05"])
+@rule("SIB9", ["C02", "C03", "C05", "C01", "C07", "C08", "C10"])
 def sib9(ctx, pid):
     """Embedding threshold: a node is embedded iff len(rlp) < 32, in writer and reader alike; hashed children are 32 bytes."""
     eng = S(ctx)
